@@ -23,8 +23,28 @@ structure St where
   route : Route
   a     : Arch
   hist  : List (Nat × Cand)     -- routed candidates since the last clear (submission order)
+  /-- half-width of the zone around a cell edge that floating-point rounding cannot resolve (C03's
+  "may fall in either adjacent cell"); `0` = exact routing only -/
+  rtol  : Rat := 0
+  /-- measures whose cell the implementation resolved differently inside that zone (`pin`) -/
+  pins  : List (List Rat × Nat) := []
 
-def init : St := ⟨.cvt [], Arch.new ⟨1, none, 0⟩ 0, []⟩
+def init : St := ⟨.cvt [], Arch.new ⟨1, none, 0⟩ 0, [], 0, []⟩
+
+/-- A grid cell is admissible for `m` when in every dimension its coordinate lies between the
+coordinates of `m − tol` and `m + tol` (the map is monotone in each coordinate, T03.2). -/
+def gridAdmissible (g : GridGeom) (tol : Rat) (m : List Rat) (h : Nat) : Bool :=
+  let lo := gridCoords g (m.map (· - tol))
+  let hi := gridCoords g (m.map (· + tol))
+  let hc := unravel g.dims h
+  decide (h < cells g.dims) && hc.length == lo.length && hc.length == hi.length &&
+    (hc.zip (lo.zip hi)).all (fun x => decide (x.2.1 ≤ x.1) && decide (x.1 ≤ x.2.2))
+
+/-- routing: the exact map, except for measures pinned inside the rounding zone -/
+def St.idxOf (st : St) (m : List Rat) : Nat :=
+  match st.pins.find? (fun p => p.1 == m) with
+  | some p => p.2
+  | none => st.route.idx m
 
 def parseCand (t : String) : Option Cand :=
   match t.splitOn ":" with
@@ -93,13 +113,15 @@ def step (st : St) (toks : List String) : St × String :=
   match toks with
   | "new" :: rest =>
     match parseRoute rest, parseCfg rest with
-    | some r, some (some cfg) => (⟨r, Arch.new cfg r.cells, []⟩, s!"ok cells={r.cells}")
+    | some r, some (some cfg) =>
+      let rtol := ((kv rest "rtol") >>= parseRat).getD 0
+      (⟨r, Arch.new cfg r.cells, [], rtol, []⟩, s!"ok cells={r.cells}")
     | some _, some none => (st, "err value")
     | _, _ => (st, "bad-op")
   | "add" :: rows =>
     match rows.mapM parseCand with
     | some cs =>
-      let routed := cs.map (fun c => (st.route.idx c.meas, c))
+      let routed := cs.map (fun c => (st.idxOf c.meas, c))
       let (a', fb) := st.a.addBatch routed
       ({ st with a := a', hist := st.hist ++ routed },
        s!"cells={showNatList (routed.map (·.1))} status={showNatList (fb.map (·.1))} value={showRatList (fb.map (·.2))}")
@@ -107,7 +129,7 @@ def step (st : St) (toks : List String) : St × String :=
   | ["add1", row] =>
     match parseCand row with
     | some c =>
-      let r := (st.route.idx c.meas, c)
+      let r := (st.idxOf c.meas, c)
       let (a', fb) := st.a.addSingle r
       ({ st with a := a', hist := st.hist ++ [r] },
        s!"cells={r.1} status={fb.1} value={showRat fb.2}")
@@ -126,13 +148,22 @@ def step (st : St) (toks : List String) : St × String :=
   | "retrieve" :: ms =>
     match ms.mapM parseRatList with
     | some ms =>
-      let idx := ms.map st.route.idx
+      let idx := ms.map st.idxOf
       (st, String.intercalate " " ((idx.zip (st.a.retrieve idx)).map (fun p => showCellOpt p.1 p.2)))
     | none => (st, "bad-op")
   | "idx" :: ms =>
     match ms.mapM parseRatList with
-    | some ms => (st, showNatList (ms.map st.route.idx))
+    | some ms => (st, showNatList (ms.map st.idxOf))
     | none => (st, "bad-op")
+  | ["pin", m, c] =>
+    -- the implementation resolved `m` to cell `c`: accepted only inside the rounding zone of a grid
+    match parseRatList m, c.toNat?, st.route with
+    | some m, some c, .grid g =>
+      if gridAdmissible g st.rtol m c then
+        ({ st with pins := (m, c) :: st.pins.filter (fun p => !(p.1 == m)) }, "ok")
+      else (st, "reject")
+    | some _, some _, _ => (st, "reject")
+    | _, _, _ => (st, "bad-op")
   | _ => (st, "bad-op")
 
 end Pyribs.ArchDrv
